@@ -579,7 +579,8 @@ def replay(chk, rep):
             print(rname)
             for k, i in enumerate(case[rname], 1):
                 print("  %2d %s" % (k, i))
-        res = tlc.run_tlc("TypeRoutines", cfg="TypeRoutinesStrict", env={"CASES": tlc.write_cases([case])}, workers=1)
+        res = tlc.run_tlc("TypeRoutines", cfg="TypeRoutinesStrict",
+                          env={"CASES": tlc.write_cases([{k: case[k] for k in ("paths", "alloc", "deinit")}])}, workers=1)
         chk.add_tlc(res)
         print("TLC: %s; sanitizer: %s" % ("%s violated" % res.violated if res.violated else "no violation", seen or "clean"))
         if res.violated and seen:
